@@ -72,8 +72,39 @@ class ReGen:
             return ("rep", sub, n, None, greedy)
         return ("rep", sub, n, n + r.below(4), greedy)
 
+    def lit_dot_run(self):
+        """a run of literal and dot nodes in which a short literal (1..3 bytes) has dots on both sides, so that the best atom window
+        starts or ends with wildcards that the atom extractor trims, followed / preceded by something that is not part of the run"""
+        r = self.r
+
+        def chain(nodes):
+            e = None
+            for n in reversed(nodes):
+                e = n if e is None else ("cat", n, e)
+            return e
+        nodes = [("any",) for _ in range(r.range(1, 2))] + [("lit", r.choice(b"abcxyz019")) for _ in range(r.range(1, 3))] + \
+                [("any",) for _ in range(r.range(1, 2))]
+        if r.chance(1, 3):
+            nodes = [("lit", r.choice(b"abcxyz019"))] + nodes
+        if r.chance(1, 3):
+            nodes = nodes + [("lit", r.choice(b"abcxyz019")) for _ in range(r.range(1, 2))]
+        run = chain(nodes)
+        tail = r.choice([("esc", "d"), ("class", False, [(0x30, 0x39)]), ("lit", r.choice(b"!_")), ("alt", ("lit", 0x5A), ("lit", 0x7A))])
+        k = r.below(5)
+        if k == 0:
+            return ("cat", run, tail)
+        if k == 1:
+            return ("cat", ("alt", chain([("lit", c) for c in b"foo"]), run), tail)
+        if k == 2:
+            return ("cat", ("rep", run, 2, 2, True), tail)
+        if k == 3:
+            return ("cat", self.gen(1), ("cat", run, tail))
+        return ("cat", run, ("cat", tail, self.gen(1)))
+
     def with_literal(self, d):
         """make sure the expression contains a literal run so that the compiler finds an atom"""
+        if self.r.chance(1, 6):
+            return self.lit_dot_run()
         lit = None
         for _ in range(self.r.range(2, 4)):
             c = ("lit", self.r.choice(b"abcxyz019"))
@@ -212,6 +243,7 @@ def re_sexp(e, nocase=False, dotall=False):
 class HexGen:
     def __init__(self, rng):
         self.r = rng
+        self.aim = []
 
     def byte_tok(self):
         r = self.r
@@ -260,7 +292,44 @@ class HexGen:
             toks.append(("b", r.choice(ALPHA)))
         return toks
 
+    def wild_run(self):
+        """a short literal run (2..3 bytes) between wildcards inside a run of >= 5 simple tokens: the atom extractor trims the wildcards
+        of the best window"""
+        r = self.r
+        toks = [("b", r.choice(ALPHA))] if r.chance(1, 2) else []
+        toks += [("any",) for _ in range(r.range(1, 2))] + [("b", r.choice(ALPHA)) for _ in range(r.range(2, 3))] + [("any",) for _ in range(r.range(1, 2))]
+        toks += [r.choice([("mask", 0x30, 0xF0), ("b", r.choice(ALPHA)), ("alt", [[("b", 0x5A)], [("b", 0x7A)]])])]
+        if r.chance(1, 3):
+            toks += self.seq(r.range(0, 2), 1)
+        return toks
+
+    def two_entry_jump(self):
+        """a bounded jump that one verification can enter at two offsets (after alternatives of different lengths, or after an earlier
+        jump whose next token occurs twice), so that a match may need the later entry with a gap at the upper bound"""
+        r = self.r
+        head = [("b", c) for c in r.choice([b"abcd", b"wxyz", b"0123"])]
+        x, y, z = r.choice(b"XQ"), r.choice(b"YV"), r.choice(b"ZK")
+        lo = r.range(0, 2)
+        hi = lo + r.range(1, 3)
+        hb = bytes(t[1] for t in head)
+        fill = lambda n: bytes([0x71]) * n
+        if r.chance(1, 2):
+            toks = head + [("alt", [[("b", x)], [("b", x), ("b", y)]])] + [("jump", lo, hi), ("b", z)]
+            # only the longer alternative reaches z: gap hi after "x y" (hi + 1 after "x")
+            self.aim = [hb + bytes([x, y]) + fill(g) + bytes([z]) for g in (hi, hi - 1, hi + 1, lo)]
+        else:
+            j0 = r.range(1, 2)
+            toks = head + [("jump", 0, j0), ("b", x), ("jump", lo, hi), ("alt", [[("b", z)], [("b", z + 32)]])]
+            # x occurs twice; only the second occurrence is within [lo, hi] of z
+            self.aim = [hb + bytes([x, x]) + fill(g) + bytes([z]) for g in (hi, hi - 1, hi + 1, lo)]
+        return toks
+
     def gen(self):
+        k = self.r.below(12)
+        if k == 0:
+            return self.wild_run()
+        if k == 1:
+            return self.two_entry_jump()
         return self.seq(self.r.range(1, 7), 2)
 
 
